@@ -46,4 +46,5 @@ package pubsubmon
 //@ func (mon *Monitor) Shutdown
 //@   property C18
 //@   opts own
+//@   ensures [success-means-shut-down] err == nil ==> mon.shutdown
 //@   modifies *
